@@ -772,6 +772,7 @@ type stats struct {
 	fills                             map[string]int // slot templates on include tags (slot variable name collisions)
 	jsonTpl                           map[int]int    // json props by number of mustaches
 	readsAsserted, unbalanced         int
+	strayBraces, closeBeforeOpen      int
 	crlf, fenceBlanks                 int
 	jsonDocKept                       map[string]int // interpolated / bound strings that are JSON documents (stay strings)
 	nullFM, zeroFM, caseNames         int
@@ -1123,6 +1124,9 @@ func evalProps(props []Prop, sc scope, r *result) map[string]mv {
 				if unbalanced(p.Text) {
 					r.st.unbalanced++
 				}
+				if i, j := strings.Index(p.Text, "}}"), strings.Index(p.Text, "{{"); i >= 0 && j > i {
+					r.st.closeBeforeOpen++
+				}
 				out[p.Name] = mv{dec, true}
 			}
 		case "interp":
@@ -1155,6 +1159,9 @@ func evalProps(props []Prop, sc scope, r *result) map[string]mv {
 				} else {
 					r.st.bracketText["interp"]++
 				}
+			}
+			if strings.Contains(p.Text, "}}") || strings.Contains(p.Post, "{{") || strings.Contains(p.Post, "}}") {
+				r.st.strayBraces++
 			}
 			out[p.Name] = mv{full, true}
 		case "bind", "vbind":
@@ -1552,7 +1559,8 @@ func judge(what string, out string, err error, m result) error {
 				return fmt.Errorf("%s: %s: v-if=%q rendered=%v, want %v (value %s) - {{ %s | json }} prints %s", what, e.id, e.name, hasKid(g.Node, "u"), e.vif == 1, e.json, e.name, g.Text)
 			}
 		}
-		if g.Text != e.json {
+		// hx collapses runs of whitespace inside text; the printed JSON may contain such runs
+		if g.Text != strings.Join(strings.Fields(e.json), " ") {
 			return fmt.Errorf("%s: %s: %s prints %s (type %q), want %s (type %q)", what, e.id, e.name, g.Text, g.Attrs["data-t"], e.json, e.typ)
 		}
 		if e.typ != "" && g.Attrs["data-t"] != e.typ {
@@ -1677,6 +1685,8 @@ func classify(c Case) (bool, []string) {
 	}
 	add(s.readsAsserted > 0, "path/len-read-asserted")
 	add(s.unbalanced > 0, "json-literal-with-mustaches-and-closing-}}")
+	add(s.closeBeforeOpen > 0, "json-literal-}}-before-first-mustache")
+	add(s.strayBraces > 0, "interpolated-prop-with-stray-braces")
 	add(s.crlf > 0, "frontmatter-file-crlf")
 	add(s.fenceBlanks > 0, "frontmatter-fence-trailing-blanks")
 	add(c.PageCRLF, "page-crlf")
@@ -1873,11 +1883,15 @@ func genProps(t *rapid.T, g *valGen, names []string, label string, pl *Place) []
 			out = append(out, Prop{Name: n, Mode: "static", Text: txt})
 		case m < 13:
 			g.n++
-			pre := rapid.SampledFrom([]string{"", "", fmt.Sprintf("p%d", 10+g.n), fmt.Sprintf("p%d", 10+g.n), "["}).Draw(t, l+".pre")
-			if pre == "[" {
-				pre = rapid.SampledFrom(bracketPrefixes).Draw(t, l+".bracketpre")
-			}
+			pre := rapid.SampledFrom([]string{"", "", fmt.Sprintf("p%d", 10+g.n), fmt.Sprintf("p%d", 10+g.n), "[", "}"}).Draw(t, l+".pre")
 			post := rapid.SampledFrom([]string{"", "q"}).Draw(t, l+".post")
+			switch pre {
+			case "[":
+				pre = rapid.SampledFrom(bracketPrefixes).Draw(t, l+".bracketpre")
+			case "}": // stray braces around the mustache
+				pre = rapid.SampledFrom(strayPre).Draw(t, l+".straypre")
+				post = rapid.SampledFrom(strayPost).Draw(t, l+".straypost")
+			}
 			out = append(out, Prop{Name: n, Mode: "interp", Text: pre, Path: src(interpSources), Post: post})
 		case m < 17:
 			out = append(out, Prop{Name: n, Mode: "bind", Path: src(bindSources)})
@@ -1906,7 +1920,15 @@ var jsonTemplates = []struct {
 	{`["{{ P }}{{ Q }}", 2, true]`, []string{"[0]", "[1]", "|len"}},
 	{`[{"z": "p{{ P }}q"}]`, []string{"[0].z", "|len"}},
 	{`{"k": "plain", "l": [1, 2, 3]}`, []string{".k", ".l[2]", ".l|len"}},
+	// nested objects that close ("}}") BEFORE the first mustache, and on both sides of it
+	{`{"n": {"m": {"k": 1}}, "who": "{{ P }}"}`, []string{".who", ".n.m.k", "|len"}},
+	{`[{"a": {"b": 1}}, "{{ P }}", {"c": {"d": "x{{ Q }}"}}]`, []string{"[1]", "[2].c.d", "[0].a.b", "|len"}},
 }
+
+// strayPre / strayPost: plain text with stray braces around a well-formed mustache - "}}" before
+// the first "{{", a lone "{{" after it: the mustache is interpolated all the same.
+var strayPre = []string{"}} ", "a } }} ", "}}", "} ", "x }} y "}
+var strayPost = []string{"", " {{", " }} b", "}}", " {", " {{ x"}
 
 var slotForms = map[string][]string{
 	"slot-loop-named":   {"var", "hash", "destructure"},
@@ -3048,6 +3070,38 @@ func enumDirs(yield func(Case) bool) int {
 	return n
 }
 
+// enumBraces: a plain interpolated prop with stray braces before / after its mustache, in every
+// combination, x includer collision x nesting; every well-formed mustache is interpolated.
+func enumBraces(yield func(Case) bool) int {
+	n := 0
+	for _, pre := range append([]string{""}, strayPre...) {
+		for _, post := range strayPost {
+			for z := 0; z < 4; z++ {
+				inData, nested := z&1 != 0, z&2 != 0
+				c := Case{Names: []string{"va1", "vb2"}, Print: []string{"d1"}, Data: fixedData(), NestedShort: true,
+					Comps: []Comp{{Name: "CardA", Wrap: z%2 == 0, Req: []Req{{":required", "va1"}}}, {Name: "BoxB", Dir: "core"}}}
+				if inData {
+					c.Data["va1"] = vals.Str("incl")
+				}
+				inc := Inc{Comp: 0, Props: []Prop{{Name: "va1", Mode: "interp", Text: pre, Path: "d1", Post: post}, {Name: "vb2", Mode: "interp", Text: pre, Path: "d2", Post: "q"}}}
+				if nested {
+					c.Comps[1].Incs = []Inc{inc}
+					c.Comps[0], c.Comps[1] = c.Comps[1], c.Comps[0]
+					c.Comps[0].Incs[0].Comp = 1
+					c.Page = []Inc{{Comp: 0}}
+				} else {
+					c.Page = []Inc{inc}
+				}
+				n++
+				if !yield(c) {
+					return n
+				}
+			}
+		}
+	}
+	return n
+}
+
 // ---------------------------------------------------------------------------------------------
 // Tests
 // ---------------------------------------------------------------------------------------------
@@ -3102,6 +3156,7 @@ func TestProp(t *testing.T) {
 	n10 := enumSpell(each("enum-spell"))
 	n11 := enumFill(each("enum-fill"))
 	n12 := enumDirs(each("enum-dirs"))
+	n13 := enumBraces(each("enum-braces"))
 	if shard == 0 {
 		for k := 0; k < skipped; k++ {
 			rec.Excluded(kfFalsy)
@@ -3113,7 +3168,7 @@ func TestProp(t *testing.T) {
 		}
 	}
 	if full && !rec.Failed() {
-		rec.Exhaustive(fmt.Sprintf("flat: %d names x {5 prop modes x front-matter x includer x required} (%d); twice: same component twice, 5^4 prop modes x front-matter x includer (%d); chain: depth-3 chain, one name, 10 states per level x includer x leaf required (%d); types: 33 values (16 of them texts starting with [ or { that are not JSON) x 5 modes x 4 collisions + 7 JSON documents as static props (%d); place: 39 placements (loop, slot content, chain member) x 6 ways of passing va1 x front-matter x includer x required (%d); pool: component with 9..12 bindings followed by loop / slot placements, twice (%d); case: 5 names with upper-case letters x front-matter x includer x 4 :required spellings (%d); fmzero: 10 null / zero-ish front-matter values x 5 prop modes x includer x root template x nesting (%d); jsontpl: 6 JSON literals with 0..2 mustaches x 3 sources x includer x front-matter x nesting (%d); spell: LF/CRLF x fence blanks x prop mode (null spelling rotating) x includer x root template x page CRLF (%d); fill: 3 slot kinds (binding nothing) x 7 sets of slot templates declaring colliding variables x 4 prop modes x includer x root template x nesting (%d); dirs: 17 component folders x 3 file names x required prop provided or not x nesting (%d)", run.Pick(2, 3), n1, n2, n3, n4, n5, n6, n7, n8, n9, n10, n11, n12))
+		rec.Exhaustive(fmt.Sprintf("flat: %d names x {5 prop modes x front-matter x includer x required} (%d); twice: same component twice, 5^4 prop modes x front-matter x includer (%d); chain: depth-3 chain, one name, 10 states per level x includer x leaf required (%d); types: 33 values (16 of them texts starting with [ or { that are not JSON) x 5 modes x 4 collisions + 7 JSON documents as static props (%d); place: 39 placements (loop, slot content, chain member) x 6 ways of passing va1 x front-matter x includer x required (%d); pool: component with 9..12 bindings followed by loop / slot placements, twice (%d); case: 5 names with upper-case letters x front-matter x includer x 4 :required spellings (%d); fmzero: 10 null / zero-ish front-matter values x 5 prop modes x includer x root template x nesting (%d); jsontpl: 8 JSON literals with 0..2 mustaches x 3 sources x includer x front-matter x nesting (%d); spell: LF/CRLF x fence blanks x prop mode (null spelling rotating) x includer x root template x page CRLF (%d); fill: 3 slot kinds (binding nothing) x 7 sets of slot templates declaring colliding variables x 4 prop modes x includer x root template x nesting (%d); dirs: 17 component folders x 3 file names x required prop provided or not x nesting (%d); braces: 6 texts before x 6 texts after a mustache (stray }} and {{) x includer x nesting (%d)", run.Pick(2, 3), n1, n2, n3, n4, n5, n6, n7, n8, n9, n10, n11, n12, n13))
 	}
 
 	run.Rapid(t, rec, "random", genCase(rec, known), classify, check)
